@@ -6,6 +6,13 @@
 (* the GLOBAL parameter object (t_x, t_y, t_z), g-vectors are recomputed    *)
 (* per grain from it, and `self.gv` / `self.tolerance` are shared scratch.  *)
 (*                                                                         *)
+(* Peak ownership is explicit: NP peaks, err[g][k] in 0..E the error of    *)
+(* grain g (identity, independent of its place in the ubi file) on peak k,  *)
+(* E standing for "not within the tolerance" (only the order and the cut    *)
+(* matter, as in ScoreAssign.tla of C07); order[p] = the grain listed at   *)
+(* place p of the ubi file (labels written by the code are places).  A      *)
+(* position refinement moves the grain, so its row of err is re-chosen.     *)
+(*                                                                         *)
 (* Translations are abstract values: <<"read", g, 0>> (from the grain file),   *)
 (* <<"fit", g, n>> (stored after the n-th position refinement of g),        *)
 (* <<"trial", g, 0>> (a simplex trial point for g), <<"global",0,0>>.      *)
@@ -21,30 +28,56 @@
 (*                       the grain it is working on                         *)
 (*            ncalls     public calls made so far (bounded)                 *)
 (*            bad        first protocol violation observed ("" = none)      *)
+(*            err, order (above) ; own[k] label of peak k (0 = none, else  *)
+(*                       a place) ; drl[k] error stored for it (E initial)  *)
+(*            ind[p]     the peak list gr.ind taken by the second loop      *)
+(*            savedpk[p] rows savegrains wrote hkl for                      *)
 (* actions    one per inner step: SetTranslation, KernelGv (compute_gv in   *)
-(*            assignlabels, translation passed by argument), ScoreAssign,   *)
+(*            assignlabels, translation passed by argument), ScoreAssign    *)
+(*            (closest.c score_and_assign: if (err < tol^2 && err <         *)
+(*            drlv2[k]) take the peak and store the error ; else if         *)
+(*            (labels[k] == label) release it - the competing-owner rule),  *)
 (*            ComputeGv (python route, translation from the parameter       *)
 (*            object), Gof (simplex trial), StoreTranslation, Refine,       *)
 (*            PutHkl ; and the public entries Generate, AssignLabels,       *)
 (*            RefinePositions, RefineUbis, SaveGrains                       *)
 (* checked    GvUsesOwnTranslation, LabelsResetFirst, TolRestored,          *)
-(*            OnlyCurrentGrainMoves, SavedWithFinalTranslation, NoBad       *)
+(*            OnlyCurrentGrainMoves, SavedWithFinalTranslation, NoBad ;     *)
+(*            BestOwner (after the first loop every peak is owned by the    *)
+(*            grain with the smallest error inside the tolerance - the      *)
+(*            first listed on exact ties - and by nobody if there is none), *)
+(*            StoredError, OrderIndependent (without ties the owner, as a   *)
+(*            grain, is a function of err alone: the order of the ubi file  *)
+(*            does not matter), IndIsOwned, SavedRowsDisjoint ; NoBad also  *)
+(*            covers "hkl written to rows the grain does not own"           *)
+(* bounds     NG grains, NP peaks, E error levels, MAXCALLS public calls :  *)
+(*            _q 2/1/3/5, _t 3/1/3/6, _t2 2/2/2/5 ; _bug (DROP_SETT) and    *)
+(*            _bug2 (LAST_WINS) are seeded defects that must be caught      *)
 (***************************************************************************)
 EXTENDS Integers, Sequences, FiniteSets, TLC
 
-CONSTANTS NG, MAXCALLS, MAXFIT,
-          DROP_SETT    \* TRUE: refineubis/savegrains forget set_translation (a seeded protocol defect: must be caught)
+CONSTANTS NG, MAXCALLS, MAXFIT, NP, E,
+          DROP_SETT,   \* TRUE: refineubis/savegrains forget set_translation (a seeded protocol defect: must be caught)
+          LAST_WINS    \* TRUE: score_and_assign labels every peak inside the tolerance (the last grain listed wins instead
+                       \*       of the best fitting one; a seeded defect: BestOwner / OrderIndependent must catch it)
 Grains == 1..NG
+Peaks == 1..NP
+Perms == {p \in [Grains -> Grains] : \A i, j \in Grains : i # j => p[i] # p[j]}
 T_NONE == <<"none", 0, 0>>
 T_GLOBAL == <<"global", 0, 0>>
 
-VARIABLES par_t, grain_t, gen, lab, nfit, tol, gvfor, call, step, cur, ncalls, bad, reset, presented, savedt
-vars == <<par_t, grain_t, gen, lab, nfit, tol, gvfor, call, step, cur, ncalls, bad, reset, presented, savedt>>
+VARIABLES par_t, grain_t, gen, lab, nfit, tol, gvfor, call, step, cur, ncalls, bad, reset, presented, savedt,
+          err, order, own, drl, ind, savedpk
+pk == <<err, order, own, drl, ind, savedpk>>
+vars == <<par_t, grain_t, gen, lab, nfit, tol, gvfor, call, step, cur, ncalls, bad, reset, presented, savedt, pk>>
 
 Init == /\ par_t = T_GLOBAL /\ grain_t = [g \in Grains |-> T_NONE] /\ gen = FALSE /\ lab = FALSE
         /\ nfit = [g \in Grains |-> 0] /\ tol = "user" /\ gvfor = <<0, T_NONE>>
         /\ call = "idle" /\ step = 0 /\ cur = 0 /\ ncalls = 0 /\ bad = ""
         /\ reset = FALSE /\ presented = {} /\ savedt = [g \in Grains |-> T_NONE]
+        /\ err \in [Grains -> [Peaks -> 0..E]] /\ order \in Perms
+        /\ own = [k \in Peaks |-> 0] /\ drl = [k \in Peaks |-> E]
+        /\ ind = [g \in Grains |-> {}] /\ savedpk = [g \in Grains |-> {}]
 
 Idle == call = "idle" /\ bad = ""
 Enter(c) == /\ Idle /\ ncalls < MAXCALLS /\ call' = c /\ step' = 1 /\ cur' = 1 /\ ncalls' = ncalls + 1
@@ -55,49 +88,57 @@ Flag(msg) == bad' = IF bad = "" THEN msg ELSE bad
 Generate == /\ Enter("generate")
             /\ grain_t' = [g \in Grains |-> IF grain_t[g] = T_NONE THEN <<"read", g, 0>> ELSE grain_t[g]]
             /\ gen' = TRUE /\ lab' = FALSE
-            /\ Keep(<<par_t, nfit, tol, gvfor, bad, reset, presented, savedt>>)
+            /\ own' = [k \in Peaks |-> 0] /\ drl' = [k \in Peaks |-> E]          \* reset_labels
+            /\ Keep(<<par_t, nfit, tol, gvfor, bad, reset, presented, savedt, err, order, ind, savedpk>>)
 GenerateDone == /\ call = "generate" /\ call' = "idle" /\ step' = 0 /\ cur' = 0
-                /\ Keep(<<par_t, grain_t, gen, lab, nfit, tol, gvfor, ncalls, bad, reset, presented, savedt>>)
+                /\ Keep(<<par_t, grain_t, gen, lab, nfit, tol, gvfor, ncalls, bad, reset, presented, savedt, pk>>)
 
 \* ---- assignlabels: reset ; for g: set_translation, C compute_gv(t = gr.translation), score_and_assign ; second loop
 StartAssign(c) == /\ Enter(c) /\ gen
                   /\ reset' = TRUE /\ presented' = {}                \* int_tmp = -1 ; drlv2 = 1
-                  /\ Keep(<<par_t, grain_t, gen, lab, nfit, tol, gvfor, bad, savedt>>)
+                  /\ own' = [k \in Peaks |-> 0] /\ drl' = [k \in Peaks |-> E]
+                  /\ Keep(<<par_t, grain_t, gen, lab, nfit, tol, gvfor, bad, savedt, err, order, ind, savedpk>>)
 AssignLabels == StartAssign("assign")
 \* one grain of the first loop (steps: 1 set_translation, 2 kernel gv, 3 score_and_assign)
 AssignSetT == /\ call \in {"assign", "refpos"} /\ step = 1 /\ cur <= NG
               /\ par_t' = grain_t[cur] /\ step' = 2
-              /\ Keep(<<grain_t, gen, lab, nfit, tol, gvfor, call, cur, ncalls, bad, reset, presented, savedt>>)
+              /\ Keep(<<grain_t, gen, lab, nfit, tol, gvfor, call, cur, ncalls, bad, reset, presented, savedt, pk>>)
 AssignKernelGv == /\ call \in {"assign", "refpos"} /\ step = 2
                   /\ gvfor' = <<cur, grain_t[cur]>>                 \* translation passed by argument: gr.translation
                   /\ step' = 3
-                  /\ Keep(<<par_t, grain_t, gen, lab, nfit, tol, call, cur, ncalls, bad, reset, presented, savedt>>)
+                  /\ Keep(<<par_t, grain_t, gen, lab, nfit, tol, call, cur, ncalls, bad, reset, presented, savedt, pk>>)
+\* the loop body of score_and_assign for the grain at place cur (its errors are err[order[cur]])
+Better(k) == err[order[cur]][k] < E /\ err[order[cur]][k] < drl[k]
+TakeLabel(k) == IF LAST_WINS THEN err[order[cur]][k] < E ELSE Better(k)
 AssignScore == /\ call \in {"assign", "refpos"} /\ step = 3
                /\ IF ~reset /\ presented = {} THEN Flag("score_and_assign before labels and errors were reset")
                   ELSE IF gvfor[1] # cur THEN Flag("score_and_assign on another grain's g-vectors") ELSE bad' = bad
                /\ presented' = presented \cup {cur} /\ reset' = FALSE
+               /\ own' = [k \in Peaks |-> IF TakeLabel(k) THEN cur ELSE IF own[k] = cur THEN 0 ELSE own[k]]
+               /\ drl' = [k \in Peaks |-> IF Better(k) THEN err[order[cur]][k] ELSE drl[k]]
                /\ IF cur < NG THEN cur' = cur + 1 /\ step' = 1 ELSE cur' = 1 /\ step' = 4
-               /\ Keep(<<par_t, grain_t, gen, lab, nfit, tol, gvfor, call, ncalls, savedt>>)
+               /\ Keep(<<par_t, grain_t, gen, lab, nfit, tol, gvfor, call, ncalls, savedt, err, order, ind, savedpk>>)
 \* second loop: per grain set_translation + tth/eta per grain (uses the parameter object)
 AssignSecond == /\ call \in {"assign", "refpos"} /\ step = 4
                 /\ par_t' = grain_t[cur]
                 /\ IF cur < NG THEN cur' = cur + 1 /\ step' = 4
                    ELSE /\ cur' = 1 /\ step' = IF call = "assign" THEN 99 ELSE 10
                 /\ lab' = (cur = NG \/ lab)
-                /\ Keep(<<grain_t, gen, nfit, tol, gvfor, call, ncalls, bad, reset, presented, savedt>>)
+                /\ ind' = [ind EXCEPT ![cur] = {k \in Peaks : own[k] = cur}]        \* gr.ind = compress(int_tmp == g)
+                /\ Keep(<<grain_t, gen, nfit, tol, gvfor, call, ncalls, bad, reset, presented, savedt, err, order, own, drl, savedpk>>)
 AssignDone == /\ call = "assign" /\ step = 99 /\ call' = "idle" /\ step' = 0 /\ cur' = 0
-              /\ Keep(<<par_t, grain_t, gen, lab, nfit, tol, gvfor, ncalls, bad, reset, presented, savedt>>)
+              /\ Keep(<<par_t, grain_t, gen, lab, nfit, tol, gvfor, ncalls, bad, reset, presented, savedt, pk>>)
 
 \* ---- refinepositions: assignlabels ; tol = 1.0 ; for g: set_translation ; simplex(gof) ; store ; refine ; tol back
 RefinePositions == StartAssign("refpos")
 RPTol == /\ call = "refpos" /\ step = 10 /\ tol' = "one" /\ step' = 11
-         /\ Keep(<<par_t, grain_t, gen, lab, nfit, gvfor, call, cur, ncalls, bad, reset, presented, savedt>>)
+         /\ Keep(<<par_t, grain_t, gen, lab, nfit, gvfor, call, cur, ncalls, bad, reset, presented, savedt, pk>>)
 RPSetT == /\ call = "refpos" /\ step = 11 /\ par_t' = grain_t[cur] /\ step' = 12
-          /\ Keep(<<grain_t, gen, lab, nfit, tol, gvfor, call, cur, ncalls, bad, reset, presented, savedt>>)
+          /\ Keep(<<grain_t, gen, lab, nfit, tol, gvfor, call, cur, ncalls, bad, reset, presented, savedt, pk>>)
 \* a simplex trial: applyargs puts the trial translation into the parameter object, compute_gv(g) uses it
 RPGof == /\ call = "refpos" /\ step \in {12, 13}
          /\ par_t' = <<"trial", cur, 0>> /\ gvfor' = <<cur, <<"trial", cur, 0>>>> /\ step' = 13
-         /\ Keep(<<grain_t, gen, lab, nfit, tol, call, cur, ncalls, bad, reset, presented, savedt>>)
+         /\ Keep(<<grain_t, gen, lab, nfit, tol, call, cur, ncalls, bad, reset, presented, savedt, pk>>)
 \* grains[key].translation = parameterobj t_x,t_y,t_z  (the last trial) ; then refine(ubi) on the shared gv
 RPStore == /\ call = "refpos" /\ step = 13 /\ nfit[cur] < MAXFIT
            /\ grain_t' = [grain_t EXCEPT ![cur] = <<"fit", cur, nfit[cur] + 1>>]
@@ -106,29 +147,33 @@ RPStore == /\ call = "refpos" /\ step = 13 /\ nfit[cur] < MAXFIT
            /\ gvfor' = <<cur, <<"fit", cur, nfit[cur] + 1>>>>
            /\ lab' = lab
            /\ IF cur < NG THEN cur' = cur + 1 /\ step' = 11 ELSE cur' = 1 /\ step' = 14
-           /\ Keep(<<gen, tol, call, ncalls, bad, reset, presented, savedt>>)
+           /\ \E row \in [Peaks -> 0..E] : err' = [err EXCEPT ![order[cur]] = row]    \* the grain moved: new errors
+           /\ Keep(<<gen, tol, call, ncalls, bad, reset, presented, savedt, order, own, drl, ind, savedpk>>)
 RPDone == /\ call = "refpos" /\ step = 14 /\ tol' = "user" /\ call' = "idle" /\ step' = 0 /\ cur' = 0
-          /\ Keep(<<par_t, grain_t, gen, lab, nfit, gvfor, ncalls, bad, reset, presented, savedt>>)
+          /\ Keep(<<par_t, grain_t, gen, lab, nfit, gvfor, ncalls, bad, reset, presented, savedt, pk>>)
 
 \* ---- refineubis / savegrains: for g: set_translation ; compute_gv(g) ; refine / put hkl --------------------
 PerGrain(c) == /\ Enter(c) /\ gen /\ lab
-               /\ Keep(<<par_t, grain_t, gen, lab, nfit, tol, gvfor, bad, reset, presented, savedt>>)
+               /\ Keep(<<par_t, grain_t, gen, lab, nfit, tol, gvfor, bad, reset, presented, savedt, pk>>)
 RefineUbis == PerGrain("refubi")
 SaveGrains == PerGrain("save")
 PGSetT == /\ call \in {"refubi", "save"} /\ step = 1 /\ par_t' = (IF DROP_SETT THEN par_t ELSE grain_t[cur]) /\ step' = 2
-          /\ Keep(<<grain_t, gen, lab, nfit, tol, gvfor, call, cur, ncalls, bad, reset, presented, savedt>>)
+          /\ Keep(<<grain_t, gen, lab, nfit, tol, gvfor, call, cur, ncalls, bad, reset, presented, savedt, pk>>)
 \* compute_gv(g): translation comes from the parameter object
 PGComputeGv == /\ call \in {"refubi", "save"} /\ step = 2
                /\ gvfor' = <<cur, par_t>>
                /\ IF par_t # grain_t[cur] THEN Flag("compute_gv with a translation that is not the grain's own") ELSE bad' = bad
                /\ step' = 3
-               /\ Keep(<<par_t, grain_t, gen, lab, nfit, tol, call, cur, ncalls, reset, presented, savedt>>)
+               /\ Keep(<<par_t, grain_t, gen, lab, nfit, tol, call, cur, ncalls, reset, presented, savedt, pk>>)
 PGUse == /\ call \in {"refubi", "save"} /\ step = 3
-         /\ IF gvfor[1] # cur THEN Flag("refine / hkl output on another grain's g-vectors") ELSE bad' = bad
+         /\ IF gvfor[1] # cur THEN Flag("refine / hkl output on another grain's g-vectors")
+            ELSE IF ind[cur] # {k \in Peaks : own[k] = cur} THEN Flag("refine / hkl output on rows the grain does not own")
+            ELSE bad' = bad
          /\ savedt' = IF call = "save" THEN [savedt EXCEPT ![cur] = gvfor[2]] ELSE savedt
+         /\ savedpk' = IF call = "save" THEN [savedpk EXCEPT ![cur] = ind[cur]] ELSE savedpk     \* numpy.put(h, g.ind, ...)
          /\ IF cur < NG THEN cur' = cur + 1 /\ step' = 1 ELSE cur' = 0 /\ step' = 0 /\ call' = "idle"
          /\ (cur < NG => call' = call)
-         /\ Keep(<<par_t, grain_t, gen, lab, nfit, tol, gvfor, ncalls, reset, presented>>)
+         /\ Keep(<<par_t, grain_t, gen, lab, nfit, tol, gvfor, ncalls, reset, presented, err, order, own, drl, ind>>)
 
 Next == Generate \/ GenerateDone \/ AssignLabels \/ AssignSetT \/ AssignKernelGv \/ AssignScore \/ AssignSecond
         \/ AssignDone \/ RefinePositions \/ RPTol \/ RPSetT \/ RPGof \/ RPStore \/ RPDone
@@ -148,5 +193,24 @@ OnlyCurrentGrainMoves == [][\A g \in Grains : grain_t'[g] # grain_t[g] => (call 
 \* what savegrains wrote for g was computed with the translation g holds at that time
 SavedWithOwn == \A g \in Grains : (savedt[g] # T_NONE /\ call = "idle") =>
                    (savedt[g] = grain_t[g] \/ nfit[g] > 0)      \* (a later refinement may have moved it on)
+\* ---- ownership (the statement is independent of the loop: a brute-force minimum) ---------------------
+FirstLoopDone == call \in {"assign", "refpos"} /\ step = 4
+MinErr(k) == LET vals == {err[g][k] : g \in Grains} IN CHOOSE m \in vals : \A v \in vals : m <= v
+\* place of the first listed grain among those attaining the minimum ; 0 when no grain is within the tolerance
+WinnerPlace(k) == IF MinErr(k) >= E THEN 0
+                  ELSE LET c == {p \in Grains : err[order[p]][k] = MinErr(k)} IN CHOOSE p \in c : \A q \in c : p <= q
+BestOwner == FirstLoopDone => \A k \in Peaks : own[k] = WinnerPlace(k)
+StoredError == FirstLoopDone => \A k \in Peaks : drl[k] = (IF MinErr(k) < E THEN MinErr(k) ELSE E)
+NoTie(k) == \A g, h \in Grains : (g # h /\ err[g][k] < E) => err[g][k] # err[h][k]
+\* without ties the owning GRAIN is the argmin of err alone: it does not depend on the order of the ubi file
+OrderIndependent == FirstLoopDone => \A k \in Peaks : NoTie(k) =>
+      (IF own[k] = 0 THEN 0 ELSE order[own[k]]) = (IF MinErr(k) >= E THEN 0 ELSE CHOOSE g \in Grains : err[g][k] = MinErr(k))
+\* the per-grain peak lists are the labels of the last completed pass ; savegrains writes hkl for exactly those rows
+PassRunning == call \in {"assign", "refpos"} /\ step <= 4
+IndIsOwned == (lab /\ ~PassRunning) => \A p \in Grains : ind[p] = {k \in Peaks : own[k] = p}
+\* (rows written by savegrains = rows owned at that time: flagged in PGUse, see NoBad) ; a peak is never saved for two grains
+\* by one savegrains call
+SavedRowsDisjoint == (call = "idle" /\ \A p \in Grains : savedt[p] # T_NONE /\ savedpk[p] = ind[p]) =>
+                        \A p, q \in Grains : p # q => savedpk[p] \cap savedpk[q] = {}
 EachGrainOncePerPass == (call \in {"assign", "refpos"} /\ step = 4) => presented = Grains
 =============================================================================
